@@ -96,11 +96,13 @@ def gen(tier, rng):
             operand = {"kind": okind, "shape": oshape, "vals": ovals, "unit": ounit}
         elif okind in ("cube", "nddata"):
             operand = {"kind": okind}
-        key = f"{shape}|{op}|{payload}|{data}|{cunit}|{unc}|{uvals}|{mask}|{operand}|{k}"
+        presliced = rng.random() < 0.3        # the cube is cube3[1] of a cube with one more axis that carried an extra coord
+        key = f"{shape}|{op}|{payload}|{data}|{cunit}|{unc}|{uvals}|{mask}|{operand}|{k}|{presliced}"
         cases.append({"key": key, "stratum": f"{op}-{okind or ''}{'-si' if si else ''}", "shape": shape, "op": op, "payload": payload, "data": data, "cunit": cunit,
-                      "unc": unc, "uvals": uvals, "mask": mask, "operand": operand, "k": k, "si": si, "nontrivial": True,
+                      "unc": unc, "uvals": uvals, "mask": mask, "operand": operand, "k": k, "si": si, "presliced": presliced, "nontrivial": True,
                       "show": {"shape": shape, "payload": payload, "data": data, "unit": cunit, "uncertainty": [unc, uvals], "mask": mask,
-                               "operator": op, "operand": operand, "exponent_or_target_unit": k}})
+                               "operator": op, "operand": operand, "exponent_or_target_unit": k,
+                               "cube_obtained_by_integer_slicing_a_cube_with_an_extra_coord_on_the_dropped_axis": presliced}})
     return cases
 
 
@@ -109,19 +111,32 @@ def _mk_cube(case):
     from astropy.nddata import StdDevUncertainty, VarianceUncertainty, InverseVariance, UnknownUncertainty
     from ndcube import NDCube
     shape = tuple(case["shape"])
-    d = np.array(case["data"], dtype=int if case["payload"] == "int" else float).reshape(shape)
+    pre = bool(case.get("presliced"))
+    full = ((3,) + shape) if pre else shape
+
+    def arr(vals, dtype):
+        a = np.array(vals, dtype=dtype).reshape(shape)
+        return np.stack([a + 100, a, a - 100]) if pre and dtype is not bool else (np.stack([a, a, a]) if pre else a)
+    d = arr(case["data"], int if case["payload"] == "int" else float)
     if case["payload"] == "dask":
         import dask.array as da
         d = da.from_array(d, chunks=-1)
     kw = {}
     if case["unc"]:
         klass = {"std": StdDevUncertainty, "var": VarianceUncertainty, "ivar": InverseVariance, "unknown": UnknownUncertainty}[case["unc"]]
-        kw["uncertainty"] = klass(np.array(case["uvals"], dtype=float).reshape(shape))
+        ua = np.array(case["uvals"], dtype=float).reshape(shape)
+        kw["uncertainty"] = klass(np.stack([ua, ua, ua]) if pre else ua)
     if case["mask"] is not None:
-        kw["mask"] = np.array(case["mask"], dtype=bool).reshape(shape)
-    c = NDCube(d, wcs=lin_wcs(len(shape)), unit=_unit(case["cunit"]), meta={"origin": "probe", "n": 3}, **kw)
-    c.extra_coords.add("e", 0, (np.arange(shape[0]) * 2 + 1) * u.m, physical_types="custom:e")
+        kw["mask"] = arr(case["mask"], bool)
+    c = NDCube(d, wcs=lin_wcs(len(full)), unit=_unit(case["cunit"]), meta={"origin": "probe", "n": 3}, **kw)
+    if pre:
+        c.extra_coords.add("exposure", 0, [1, 2, 4] * u.s, physical_types="custom:exposure")
+        c.extra_coords.add("e", 1, (np.arange(shape[0]) * 2 + 1) * u.m, physical_types="custom:e")
+    else:
+        c.extra_coords.add("e", 0, (np.arange(shape[0]) * 2 + 1) * u.m, physical_types="custom:e")
     c.global_coords.add("g", "custom:g", 3 * u.s)
+    if pre:
+        c = c[1]
     return c
 
 
@@ -181,7 +196,9 @@ def _data(c):
 def _same_frame(src, r):
     """wcs, extra coords, global coords, meta of r are those of src"""
     try:
-        if repr(r.wcs.to_header()) != repr(src.wcs.to_header()):
+        pr = [1.0] * src.wcs.pixel_n_dim
+        if not np.array_equal(np.atleast_1d(r.wcs.low_level_wcs.pixel_to_world_values(*pr)), np.atleast_1d(src.wcs.low_level_wcs.pixel_to_world_values(*pr))) \
+                or list(r.wcs.world_axis_physical_types) != list(src.wcs.world_axis_physical_types):
             return "wcs"
         if list(r.extra_coords.keys()) != list(src.extra_coords.keys()):
             return "extra coords"
